@@ -69,7 +69,8 @@ pub fn header_mutations(h: &Header) -> Vec<(Header, &'static str)> {
 }
 
 fn extra(mutname: &str, honest: &Option<Header>, pair: Option<String>) -> J {
-    let mut x = json!({"mut": mutname, "honestOk": honest.is_some(), "honest": honest.map(|h| lj::hx(&h.hash())).unwrap_or_default()});
+    let mut x = json!({"mut": mutname, "honestOk": honest.is_some(), "honest": honest.map(|h| lj::hx(&h.hash())).unwrap_or_default(),
+                       "honestHeader": honest.map(|h| lj::header_j(&h)).unwrap_or(json!({}))});
     if let Some(p) = pair {
         x["agree"] = json!([[format!("C03|{}", p), "C03"], [format!("C08|{}", p), "C08"]]);
     }
